@@ -144,6 +144,15 @@ func genC20(t *rapid.T) C20Case {
 	case "own":
 		c.X = h.GenAny(t, "x", 400)
 		c.Exp = h.GenExp(t, "exp")
+		switch rapid.IntRange(0, 7).Draw(t, "ownexp") {
+		case 0:
+			// exponents that leave the range with the receiver's own, untouched slice too
+			c.Exp = model.MaxExp + int64(rapid.IntRange(-3, 40).Draw(t, "e"))
+		case 1:
+			c.Exp = model.MinExp + int64(rapid.IntRange(-40, 3).Draw(t, "e"))
+		case 2:
+			c.Exp = rapid.SampledFrom([]int64{1<<63 - 1, -1 << 63, 1 << 62, -1 << 62, 1 << 32, -1 << 32, 1<<32 + 5, -1<<32 - 5, 1 << 31, -1<<31 - 1, 1<<33 - 7, -1<<33 + 7}).Draw(t, "edge")
+		}
 		c.Same = rapid.IntRange(0, 2).Draw(t, "edit") == 0 // edit the top word in place before setting the slice back
 	case "ownext":
 		// the receiver's own BitsExp slice, extended within its capacity (as the documentation allows) by 1..6 more
@@ -330,7 +339,7 @@ func checkC20(c C20Case, o *h.Obs) *h.Fail {
 				}
 				return nil
 			}
-			exact := model.MkFinite(false, strings.TrimRight(digits, "0"), c.Exp-int64(len(all)-len(digits)))
+			exact := model.MkFinite(false, strings.TrimRight(digits, "0"), clampModelExp(c.Exp)-int64(len(all)-len(digits)))
 			want, acc := model.Round(model.X{Val: exact}, uint64(c.X.P), model.Mode(c.X.M))
 			if c.X.P != 0 && (!got.Val().Equal(want) || model.Acc(got.Acc) != acc) {
 				return h.Failf("own", "x = %v: top word of its own slice divided in place, SetBitsExp(same slice, %d): got %v (%v) want %v (%v)", xv, c.Exp, got.Val(), model.Acc(got.Acc), want, acc)
@@ -343,13 +352,17 @@ func checkC20(c C20Case, o *h.Obs) *h.Fail {
 		if got.Malformed != "" {
 			return h.Failf("malformed", "%v", got)
 		}
-		want := model.MkZero(false)
+		want, wacc := model.MkZero(false), model.Exact
 		if xv.Form == model.Finite {
-			want = model.MkFinite(false, xv.Digits, c.Exp)
+			// (exact unless the exponent leaves the range: then +0 or +Inf with the accuracy of the range rule)
+			want, wacc = model.Round(model.X{Val: model.MkFinite(false, xv.Digits, clampModelExp(c.Exp))}, uint64(c.X.P), model.Mode(c.X.M))
+			if want.Form != model.Finite {
+				o.Label("own:exponent-leaves-range")
+			}
 		}
 		if xv.Form == model.Finite && c.X.P != 0 {
-			if !got.Val().Equal(want) || got.Acc != 0 {
-				return h.Failf("own", "x.SetBitsExp(x.BitsExp() mantissa, %d) of %v = %v want %v", c.Exp, xv, got, want)
+			if !got.Val().Equal(want) || model.Acc(got.Acc) != wacc {
+				return h.Failf("own", "x.SetBitsExp(x.BitsExp() mantissa, %d) of %v = %v want %v (%v)", c.Exp, xv, got, want, wacc)
 			}
 			o.NonTrivial()
 		} else if got.Form != model.Zero {
